@@ -1,4 +1,4 @@
-/* C02 — JSON-RPC discipline: one response per request id, none for notifications, batches as sequences,
+/* C02 - JSON-RPC discipline: one response per request id, none for notifications, batches as sequences,
  * responses only on the requester's connection.  Exhaustive product method x params-shape x id-form x
  * daemon state x transport, plus incoming response objects and batch pairs (twin: batch vs one-by-one). */
 #include <stdlib.h>
